@@ -19,4 +19,7 @@ Extraction "model.ml"
   (* OpenFile *) open_file OpenFile.value_as_bytes OpenFile.table_get alloc_limit og_fixed og_pinned
   (* Storage *) with_data st_step live_values ops_file ops_mem mem_raw file_raw mapped_raw spec_init spec_step accepts tight_len st_run
   (* ConcRead *) conc_init conc_step conc_pc conc_lock conc_result ConcRead.file_read
-  (* DeriveType *) to_values from_element db_keys select_pairs upsert_pairs.
+  (* DeriveType *) to_values from_element db_keys select_pairs upsert_pairs
+  (* Auth *) Auth.init_state Auth.step Auth.authorize sessions_of kind_is_write kind_read_allowed kind_audited
+             doc_perm doc_allows tag_of holds_of
+  (* Paths *) files dirs resolve name_defect_of valid_name escapes clashes op_creates op_removes paths_of_kinds.
